@@ -641,6 +641,13 @@ class Interp:
             return BoundMethod(v.__func__, type(obj) if not isinstance(obj, type) else obj, k)
         if isinstance(v, property):
             return self.call_function_object(v.fget, [obj], {}, k)
+        if hasattr(type(v), '__get__') and not isinstance(obj, type):
+            # a descriptor of class k (e.g. the slot wrapper Exception.__init__ reached through super()):
+            # bind THAT one, not whatever the instance's class resolves the name to
+            try:
+                return v.__get__(obj, type(obj))
+            except Exception as e:
+                raise PyRaise(e)
         return self._native_getattr(obj, name)
 
     def _native_getattr(self, obj, name):
